@@ -1,4 +1,5 @@
 import Litep2pVerif.Proofs.Manager.LedgerStep
+import Litep2pVerif.Proofs.Node.Wiring
 import Litep2pVerif.Proofs.Manager.Proto
 import Litep2pVerif.Proofs.Manager.Facade
 /-!
@@ -515,3 +516,45 @@ example :
 #print axioms facade_reports_every_outcome
 
 end Litep2pVerif.Props.C05
+
+/-! ## Wiring — what `Litep2p::new` hands over (coverage round `node`)
+
+Over the wiring model `Model/Node/Wiring.lean` (`Node.new c` = `Litep2p::new(ConfigBuilder…build())`), which is tied to
+the real `ConfigBuilder`/`Litep2p::new` by the `node` area: the adapter prints the ACTUAL registration record of a node built
+through the public API, the driver prints the model's, compared field by field on every run. -/
+namespace Litep2pVerif.Props.C05.Wiring
+open Litep2pVerif Litep2pVerif.Node
+
+/-- A configuration with every kind of protocol (used by the non-vacuity examples). -/
+def sample : Config :=
+  { keepAliveMs := some 600, limits := some (some 2, none), listen := [1, 2],
+    notif := [⟨"/n/a", 1024, "0102", ["/n/old"], 'a'⟩],
+    rr := [⟨"/r/a", 256, 800, ["/r/old"], none⟩, ⟨"/r/b", 64, 800, [], some 1⟩],
+    user := [⟨"/u/a", .varint none⟩], kad := [⟨[], none⟩], ping := some 1, identify := true, bitswap := true,
+    known := some [(0, [.listen 0, .closed, .quic, .wrongPeer 0, .noPeer 0])] }
+
+/-- The listen addresses a node reports are the configured ones, in the configured order, each with the node's own peer
+id; the known addresses given in the configuration are in the manager's address book (those it can dial: TCP with the
+peer's own id), so the peer can be dialed by id. -/
+theorem known_and_listen_addresses_installed (c : Config) (w : Wired) (h : Node.new c = .ok w) :
+    w.listen = c.listen.map (fun o => (o, true)) ∧
+    w.known = (c.known.getD []).map (fun (j, ks) => (j, ks.filter AddrKind.stored)) := by
+  obtain ⟨_, _, rfl⟩ := wire_ok h
+  exact ⟨rfl, rfl⟩
+
+example : ∃ w, Node.new sample = .ok w ∧ w.listen = [(1, true), (2, true)] ∧ w.known = [(0, [.listen 0, .closed])] :=
+  ⟨_, rfl, rfl, by decide⟩
+
+/-- `Litep2p::new` registers the user protocols in `HashMap` order: whether registration succeeds does not depend on
+that order (two registrations clash iff they claim a common name). -/
+theorem registration_order_irrelevant {regs regs' : List Registration} (p : regs.Perm regs') :
+    registerAll [] regs ≠ none ↔ registerAll [] regs' ≠ none :=
+  clashFree_perm p
+
+example : registerAll [] (registrations (build sample)) ≠ none ∧
+    registerAll [] (registrations (build sample)).reverse ≠ none := by decide
+
+end Litep2pVerif.Props.C05.Wiring
+
+#print axioms Litep2pVerif.Props.C05.Wiring.known_and_listen_addresses_installed
+#print axioms Litep2pVerif.Props.C05.Wiring.registration_order_irrelevant
